@@ -78,6 +78,7 @@ def _case(draw, kind):
                 persistent_out=draw(st.sampled_from([False, False, False, True])),
                 mid_fault=draw(st.sampled_from([None, None, None, 1, 2, 4, 7, 12])),
                 prelude_fault=draw(st.sampled_from([None, None, None, 2, 5, 9, 14, 20, 33])),
+                prelude_overflow=(draw(st.sampled_from([False, False, False, True])) if kind != "implicit" else False),
                 jump_mode=draw(st.sampled_from(["full", "full", "state_one_component", "state_one_component", "state_all_components", "time_only"])),
                 jump_index=draw(st.integers(0, 5)),
                 jump=[draw(st.booleans()) for _ in range(2)], jump_y=draw(PR.state(rhs["shape"])), jump_t=draw(st.sampled_from([0.5, -1.25, 7.0])))
@@ -198,6 +199,20 @@ def check(case):
                 raise
             labels.append("prelude_failed:" + type(e).__name__)
         fault_at[0] = None
+
+    if case.get("prelude_overflow"):
+        # before the judged steps the same integrator object takes a step of a right-hand side that overflows (every slope +-inf):
+        # the non-finite stage values and increment it leaves in its buffers must not reach later steps (0 * inf = nan)
+        def overflowing(t_, y_, **kw):
+            return np.full(np.shape(y_), np.inf, dtype=dt) * np.where(np.arange(np.size(y_)).reshape(np.shape(y_)) % 2 == 0, 1.0, -1.0).astype(dt)
+        try:
+            with np.errstate(all="ignore"):
+                integ(DiffRHS(overflowing), dt(case["jump_t"]), np.asarray(case["jump_y"], dtype=dt).reshape(shape), {"k": 1.0}, dt(math.copysign(0.5, case["h"])))
+            labels.append("prelude_overflowed:returned")
+        except Exception as e:
+            if exc_origin(e)[0] == "harness":
+                raise
+            labels.append("prelude_overflowed:" + type(e).__name__)
 
     for step_no in range(case["nsteps"]):
         y_in = y.copy()
